@@ -1,4 +1,17 @@
 import Ufw.Props.C18
+import Ufw.Tie.ByteBuf.Null
+import Ufw.Tie.ByteBuf.Set
+import Ufw.Tie.ByteBuf.Use
+import Ufw.Tie.ByteBuf.Space
+import Ufw.Tie.ByteBuf.Avail
+import Ufw.Tie.ByteBuf.Rest
+import Ufw.Tie.ByteBuf.Add
+import Ufw.Tie.ByteBuf.Consume
+import Ufw.Tie.ByteBuf.ConsumeAtMost
+import Ufw.Tie.ByteBuf.Rewind
+import Ufw.Tie.ByteBuf.Clear
+import Ufw.Tie.ByteBuf.Reset
+import Ufw.Tie.ByteBuf.Repeat
 #print axioms Ufw.Props.C18.setup_refuses
 #print axioms Ufw.Props.C18.setup_inv
 #print axioms Ufw.Props.C18.step_refines
@@ -9,3 +22,16 @@ import Ufw.Props.C18
 #print axioms Ufw.Props.C18.consume_at_most_spec
 #print axioms Ufw.Props.C18.rewind_spec
 #print axioms Ufw.Props.C18.reset_clear_repeat_spec
+#print axioms Ufw.Tie.ByteBuf.gen_null
+#print axioms Ufw.Tie.ByteBuf.gen_set
+#print axioms Ufw.Tie.ByteBuf.gen_use
+#print axioms Ufw.Tie.ByteBuf.gen_space
+#print axioms Ufw.Tie.ByteBuf.gen_avail
+#print axioms Ufw.Tie.ByteBuf.gen_rest
+#print axioms Ufw.Tie.ByteBuf.gen_add
+#print axioms Ufw.Tie.ByteBuf.gen_consume
+#print axioms Ufw.Tie.ByteBuf.gen_consume_at_most
+#print axioms Ufw.Tie.ByteBuf.gen_rewind
+#print axioms Ufw.Tie.ByteBuf.gen_clear
+#print axioms Ufw.Tie.ByteBuf.gen_reset
+#print axioms Ufw.Tie.ByteBuf.gen_repeat
